@@ -84,7 +84,7 @@ func withWeights(base map[string]int, over map[string]int) map[string]int {
 var ProfileC02 = &Profile{
 	ID: "C02", Name: "shares", MinBlocks: 5, MaxBlocks: 40, MaxTxs: 5, Spec: specDefault, Check: CheckC02,
 	Weights: withWeights(mixedWeights(), map[string]int{"amm.join": 14, "amm.exit": 14, "leveragelp.open": 10, "leveragelp.close": 8, "leveragelp.close_positions": 3, "perpetual.open": 2, "perpetual.close": 2}),
-	Rule: "history with >=1 join and >=1 exit and >=1 leveragelp open or close (all successful)",
+	Rule:    "history with >=1 join and >=1 exit and >=1 leveragelp open or close (all successful)",
 	NonTrivial: func(h *History) bool {
 		return okCount(h, "amm.join") > 0 && okCount(h, "amm.exit") > 0 && okCount(h, "leveragelp.open", "leveragelp.close") > 0
 	},
@@ -135,7 +135,7 @@ var ProfileC09 = &Profile{
 var ProfileC11 = &Profile{
 	ID: "C11", Name: "accounted", MinBlocks: 5, MaxBlocks: 40, MaxTxs: 5, Spec: specDefault, Check: CheckC11,
 	Weights: withWeights(ProfileC09.Weights, map[string]int{"amm.swap_in": 10, "amm.swap_out": 6, "amm.join": 5, "amm.exit": 5}),
-	Rule: "history with amm writers and perpetual writers on the same pool, including >=1 block whose last pool writer was a perpetual handler",
+	Rule:    "history with amm writers and perpetual writers on the same pool, including >=1 block whose last pool writer was a perpetual handler",
 	NonTrivial: func(h *History) bool {
 		return h.Labels["perp-last-writer"] > 0 && okCount(h, "amm.swap_in", "amm.swap_out", "amm.join", "amm.exit") > 0
 	},
@@ -358,6 +358,27 @@ var ProfileC18 = &Profile{
 		return h.Labels["block-with-missing-price"] > 0 && h.Labels["gap>=1d"] > 0 && (okCount(h, "leveragelp.open", "perpetual.open") > 0)
 	},
 }
+
+// ProfileC18Params: the same fault histories, with governance changing module parameters between blocks to
+// settings that every validation layer accepts ("parameter settings permitted by validation").
+var ProfileC18Params = func() *Profile {
+	p := *ProfileC18
+	p.Name = "faults-params"
+	p.PreBlock = func(h *History, g *G) []EnvAction {
+		if g.Int("pg?", 0, 3) != 0 {
+			return nil
+		}
+		if e := GenParamChange(h, g); e != nil {
+			return []EnvAction{*e}
+		}
+		return nil
+	}
+	p.Rule = "history with >=1 applied governance parameter change (a boundary value accepted by Params.Validate, ValidateBasic and the handler), >=1 block after a gap >= 1 day and >=1 open leveraged position at some point"
+	p.NonTrivial = func(h *History) bool {
+		return h.Labels["param-change-applied"] > 0 && h.Labels["gap>=1d"] > 0 && (okCount(h, "leveragelp.open", "perpetual.open") > 0)
+	}
+	return &p
+}()
 
 var ProfileC04 = &Profile{
 	ID: "C04", Name: "swap-batch", MinBlocks: 4, MaxBlocks: 25, MaxTxs: 4, Spec: specDefault, Check: CheckC04, ExtraOps: c04ExtraOps,
